@@ -549,7 +549,12 @@ def call_builtin(it, fn, args, kwargs, node, fr):
     if fn == "print":
         return K(None)
     if fn == "bool" and args:
-        return args[0]
+        a0 = args[0]
+        if isinstance(a0, Unk) and a0.term.op == "call" and a0.term.args[0] in ("re.search", "re.match", "re.fullmatch") \
+                and all(tm.is_const(x) for x in a0.term.args[1:]):
+            import re as _re
+            return K(bool(getattr(_re, a0.term.args[0].split(".")[1])(*[x.args[0] for x in a0.term.args[1:]])))
+        return a0
     if fn == "type" and args:
         v = args[0]
         if isinstance(v, Obj):
@@ -810,8 +815,19 @@ def call_method(it, recv, name, args, kwargs, node, fr):
             rs = _img.reshape_axes(it, recv, args[0] if len(args) == 1 else Seq(args, "tuple"), node)
             if rs is not None:
                 return rs
-        if name in ("copy", "astype", "to_numpy", "squeeze", "flatten", "ravel", "tolist", "reset_index") and name != "reset_index":
+        if name in ("copy", "to_numpy", "squeeze", "flatten", "ravel", "tolist"):
             return recv
+        if name == "astype":
+            u = Unk(call(".astype", recv.term, *[to_term(a) for a in args]), space=recv.space)
+            for k_ in ("rank", "pos_of"):
+                if hasattr(recv, k_):
+                    setattr(u, k_, getattr(recv, k_))
+            return u
+        if name == "transpose":
+            u = Unk(call(".transpose", recv.term, *[to_term(a) for a in args]), space=None)
+            if hasattr(recv, "rank"):
+                u.rank = recv.rank
+            return u
         return Unk(call("." + name, recv.term, *[to_term(a) for a in args],
                         *[mk("kw", const(k), to_term(v)) for k, v in kwargs.items()]),
                    space=recv.space if name in ("reset_index", "sort_values", "fillna", "round", "apply", "map") else None)
